@@ -10,6 +10,12 @@ from .explore import explore_scenario, replay_choices
 
 def shard(spec) -> Acc:
     """Explore one scenario completely (within its bound); convert to an accumulator"""
+    # a recorded finding must not end the exploration of a scenario: something else may be
+    # wrong on another schedule of it
+    from vlib.core import load_known_findings
+
+    spec = dict(spec, known_keys=sorted(load_known_findings(
+        spec["module"].rsplit(".", 1)[-1].upper())))
     total = explore_scenario(spec)
     acc = Acc()
     acc.evaluations = total["executions"]
